@@ -1419,7 +1419,7 @@ Proof.
   destruct (step (g_st g) o) as [[st' d]|] eqn:Es; [|discriminate].
   destruct o; simpl in Es, Hl; inversion Hs; subst; clear Hs.
   - (* create *)
-    destruct HG as [dom G]. destruct Hl as (Hf0 & Hfh & Hfd & Hff). unfold create in Es.
+    destruct HG as [dom G]. destruct Hl as ((Hf0 & Hfh & Hfd & Hff) & _). unfold create in Es.
     destruct bytes as [|b bs]; inversion Es; subst; clear Es.
     + exists dom. simpl. apply ginv_create_empty; assumption.
     + exists (id :: dom). simpl. unfold hinc0. destruct (Z.eqb_spec id EMPTY_ID); [contradiction|].
@@ -1545,4 +1545,163 @@ Proof.
   split; [assumption|]. apply NoDup_Permutation; try assumption.
   intro k. rewrite Hc. split; [|auto]. intros [?|[l E]]; [assumption|].
   destruct (objs_heap _ _ _ E) as (e & He & _). rewrite Hempty in He. discriminate.
+Qed.
+
+(* ================================================================= legal histories never fault; every live object is wf *)
+Definition WFH (st : state) : Prop := forall k d, objs st k = Some d -> wf d.
+
+Lemma objs_retain : forall st a k, objs (retain_id st a) k = objs st k.
+Proof.
+  intros. unfold retain_id. destruct (a =? EMPTY_ID); [reflexivity|].
+  destruct (heap st a) as [e|] eqn:E; [|reflexivity]. rewrite objs_upd.
+  destruct (Z.eqb_spec k a); [subst; unfold objs; rewrite E; reflexivity|reflexivity].
+Qed.
+
+Lemma objs_fold_retain : forall ids st k, objs (fold_left retain_id ids st) k = objs st k.
+Proof. induction ids; intros; simpl; [reflexivity|]. rewrite IHids. apply objs_retain. Qed.
+
+Lemma objs_release_leaf : forall st a k d, objs (release_leaf st a) k = Some d -> objs st k = Some d.
+Proof.
+  intros st a k d. unfold release_leaf. destruct (a =? EMPTY_ID); [auto|].
+  destruct (heap st a) as [e|] eqn:E; [|auto].
+  destruct (e_rc e) as [|[|m]]; rewrite objs_upd; destruct (Z.eqb_spec k a); try discriminate; auto;
+    subst; unfold objs; rewrite E; auto.
+Qed.
+
+Lemma objs_fold_release : forall ids st k d, objs (fold_left release_leaf ids st) k = Some d -> objs st k = Some d.
+Proof. induction ids; intros st k d H; simpl in H; [assumption|]. apply IHids in H. eapply objs_release_leaf; eassumption. Qed.
+
+Lemma objs_release : forall st a k d, objs (release_id st a) k = Some d -> objs st k = Some d.
+Proof.
+  intros st a k d. unfold release_id. destruct (a =? EMPTY_ID); [auto|].
+  destruct (heap st a) as [e|] eqn:E; [|auto].
+  assert (Hdec : forall m, objs (mkState (hupd (heap st) a (Some (mkEntry (e_obj e) m))) (dlog st) (flog st)) k = Some d ->
+                           objs st k = Some d).
+  { intros m. rewrite objs_upd. destruct (Z.eqb_spec k a); [subst; unfold objs; rewrite E; auto|auto]. }
+  destruct (e_rc e) as [|[|m]]; try apply Hdec;
+    (destruct (e_obj e); [apply objs_release_leaf|];
+     rewrite fold_left_map_eq; intro H; apply objs_fold_release in H; rewrite objs_upd in H;
+     destruct (Z.eqb_spec k a); [discriminate|assumption]).
+Qed.
+
+Lemma objs_adopt : forall st d0 k d, objs (adopt st d0) k = Some d -> objs st k = Some d \/ d = d0.
+Proof.
+  intros st d0 k d. unfold adopt. destruct (obj_id d0 =? EMPTY_ID); [auto|].
+  destruct (heap st (obj_id d0)) eqn:E; [rewrite objs_retain; auto|].
+  assert (Hins : objs (mkState (hupd (heap st) (obj_id d0) (Some (mkEntry d0 1%nat))) (dlog st) (flog st)) k = Some d ->
+                 objs st k = Some d \/ d = d0).
+  { rewrite objs_upd. destruct (Z.eqb_spec k (obj_id d0)); [simpl; intro H; inversion H; auto|auto]. }
+  destruct d0; [assumption|]. rewrite fold_left_map_eq, objs_fold_retain. assumption.
+Qed.
+
+Lemma get_wf : forall st a da, WFH st -> get st a = Some da -> wf da.
+Proof.
+  intros st a da H Hg. unfold get in Hg. destruct (a =? EMPTY_ID); [inversion Hg; apply wf_empty|].
+  destruct (heap st a) as [e|] eqn:E; [|discriminate]. inversion Hg; subst. apply (H a). unfold objs. now rewrite E.
+Qed.
+
+Lemma map_of_map_bytes : forall f d d' bs, map_bytes f d = Some (d', bs) -> exists p sz, map f d = Some (d', p, sz).
+Proof.
+  intros f d d' bs. unfold map_bytes. destruct (map f d) as [[[d0 [[buf base]|]] sz]|]; [| |discriminate].
+  - destruct (read buf base sz); [|discriminate]. intro E; inversion E; subst. eauto.
+  - intro E; inversion E; subst. eauto.
+Qed.
+
+Lemma wfh_step : forall g o st' d, WFH (g_st g) -> legal g o -> step (g_st g) o = Some (st', d) -> WFH st'.
+Proof.
+  intros g o st' d H Hl Es. destruct o; simpl in Es, Hl.
+  - destruct Hl as ((Hf0 & _) & Hsz). unfold create in Es. destruct bytes as [|b bs]; inversion Es; subst; [exact H|].
+    intros k d0. rewrite objs_upd. destruct (Z.eqb_spec k id); [|apply H].
+    simpl. intro E; inversion E; subst. simpl. split; [exact Hsz|]. simpl. split; [discriminate|contradiction].
+  - destruct Hl as ((Hf0 & _) & _). destruct (get (g_st g) a) as [da|] eqn:Ea; [|discriminate].
+    destruct (get (g_st g) b) as [db|] eqn:Eb; [|discriminate].
+    destruct (concat fresh da db) as [d0|] eqn:Ec; [|discriminate]. inversion Es; subst.
+    intros k d0 Hk. destruct (objs_adopt _ _ _ _ Hk) as [?| ->]; [eapply H; eassumption|].
+    eapply proj1. eapply (wf_concat fresh da db); eauto using get_wf.
+  - destruct Hl as ((Hf0 & _) & _ & Ho & Hn). destruct (get (g_st g) a) as [da|] eqn:Ea; [|discriminate].
+    destruct (subrange fresh da off len) as [d0|] eqn:Ec; [|discriminate]. inversion Es; subst.
+    intros k d0 Hk. destruct (objs_adopt _ _ _ _ Hk) as [?| ->]; [eapply H; eassumption|].
+    destruct (subrange_spec fresh da off len (get_wf _ _ _ H Ea) Hf0 Ho Hn) as (d' & E & Hw & _). congruence.
+  - destruct Hl as ((Hf0 & _) & _). destruct (get (g_st g) a) as [da|] eqn:Ea; [|discriminate].
+    destruct (map fresh da) as [[[d0 p] sz]|] eqn:Ec; [|discriminate]. inversion Es; subst.
+    intros k d0 Hk. destruct (objs_adopt _ _ _ _ Hk) as [?| ->]; [eapply H; eassumption|].
+    destruct (map_spec fresh da (get_wf _ _ _ H Ea) Hf0) as (d' & E & Hw & _).
+    destruct (map_of_map_bytes _ _ _ _ E) as (p' & sz' & E'). congruence.
+  - destruct Hl as ((Hf0 & _) & _ & Ho). destruct (get (g_st g) a) as [da|] eqn:Ea; [|discriminate].
+    destruct (copy_region fresh da loc) as [[d0 off]|] eqn:Ec; [|discriminate]. inversion Es; subst.
+    intros k d0 Hk. destruct (objs_adopt _ _ _ _ Hk) as [?| ->]; [eapply H; eassumption|].
+    destruct (copy_region_spec fresh da loc (get_wf _ _ _ H Ea) Hf0 Ho) as (r & o & E & Hw & _). congruence.
+  - destruct (get (g_st g) a) as [da|] eqn:Ea; [|discriminate].
+    destruct (a =? EMPTY_ID); [inversion Es; subst; exact H|].
+    destruct (heap (g_st g) a) as [e|] eqn:Hk; [|discriminate]. inversion Es; subst.
+    intros k d0. rewrite objs_upd. destruct (Z.eqb_spec k a); [|apply H].
+    simpl. intro E; inversion E; subst. apply flatten_priv_spec. eapply get_wf; eassumption.
+  - destruct (get (g_st g) a) as [da|] eqn:Ea; [|discriminate]. inversion Es; subst.
+    intros k d0. rewrite objs_retain. apply H.
+  - destruct (get (g_st g) a) as [da|] eqn:Ea; [|discriminate]. inversion Es; subst.
+    intros k d0 Hk. apply objs_release in Hk. eapply H; eassumption.
+Qed.
+
+Lemma wfh_gstep : forall g o g', WFH (g_st g) -> legal g o -> gstep g o = Some g' -> WFH (g_st g').
+Proof.
+  intros g o g' H Hl Hs. unfold gstep in Hs. destruct (step (g_st g) o) as [[st' d]|] eqn:Es; [|discriminate].
+  assert (g_st g' = st') by (destruct o; inversion Hs; reflexivity). subst st'. eapply wfh_step; eassumption.
+Qed.
+
+Lemma holds_get : forall g a, GI g -> holds g a -> exists da, get (g_st g) a = Some da.
+Proof.
+  intros g a [dom G] [->|Hh]; [exists empty; reflexivity|]. unfold get.
+  destruct (a =? EMPTY_ID); [eauto|]. destruct (heap (g_st g) a) as [e|] eqn:E; [eauto|].
+  destruct (gi_dead _ _ _ _ _ _ G a (proj2 (objs_none _ _) E)). lia.
+Qed.
+
+(* a call of a well-behaved client fails to return an object only in one case: a concat whose total does not fit *)
+Theorem legal_step_total : forall g o, GI g -> WFH (g_st g) -> legal g o -> gstep g o = None ->
+  exists f a b da db, o = OConcat f a b /\ get (g_st g) a = Some da /\ get (g_st g) b = Some db /\
+     size da <> 0 /\ size db <> 0 /\ M64 <= size da + size db.
+Proof.
+  intros g o HG HW Hl Hn. unfold gstep in Hn. destruct (step (g_st g) o) as [[st' d]|] eqn:Es; [discriminate|]. clear Hn.
+  destruct o; simpl in Es, Hl.
+  - discriminate.
+  - destruct Hl as (_ & Ha & Hb). destruct (holds_get g a HG Ha) as [da Ea]. destruct (holds_get g b HG Hb) as [db Eb].
+    rewrite Ea, Eb in Es. destruct (concat fresh da db) as [d0|] eqn:Ec; [discriminate|].
+    exists fresh, a, b, da, db. split; [reflexivity|]. split; [assumption|]. split; [assumption|].
+    unfold concat in Ec. destruct (Z.eqb_spec (size da) 0); [discriminate|]. destruct (Z.eqb_spec (size db) 0); [discriminate|].
+    destruct (Z.leb_spec M64 (size da + size db)); [auto|discriminate].
+  - destruct Hl as ((Hf0 & _) & Ha & Ho & Hlen). destruct (holds_get g a HG Ha) as [da Ea]. rewrite Ea in Es.
+    destruct (subrange_spec fresh da off len (get_wf _ _ _ HW Ea) Hf0 Ho Hlen) as (d' & E & _). rewrite E in Es. discriminate.
+  - destruct Hl as ((Hf0 & _) & Ha). destruct (holds_get g a HG Ha) as [da Ea]. rewrite Ea in Es.
+    destruct (map_spec fresh da (get_wf _ _ _ HW Ea) Hf0) as (d' & E & _).
+    destruct (map_of_map_bytes _ _ _ _ E) as (p & sz & E'). rewrite E' in Es. discriminate.
+  - destruct Hl as ((Hf0 & _) & Ha & Ho). destruct (holds_get g a HG Ha) as [da Ea]. rewrite Ea in Es.
+    destruct (copy_region_spec fresh da loc (get_wf _ _ _ HW Ea) Hf0 Ho) as (r & o & E & _). rewrite E in Es. discriminate.
+  - destruct (holds_get g a HG Hl) as [da Ea]. rewrite Ea in Es. destruct (Z.eqb_spec a EMPTY_ID); [discriminate|].
+    unfold get in Ea. destruct (Z.eqb_spec a EMPTY_ID); [contradiction|]. destruct (heap (g_st g) a); discriminate.
+  - destruct (holds_get g a HG Hl) as [da Ea]. rewrite Ea in Es. discriminate.
+  - destruct (holds_get g a HG Hl) as [da Ea]. rewrite Ea in Es. discriminate.
+Qed.
+
+Lemma grun_wfh : forall ops g g', WFH (g_st g) -> glegal g ops -> grun g ops = Some g' -> WFH (g_st g').
+Proof.
+  induction ops as [|o rest IH]; intros g g' H Hl Hr; simpl in *.
+  - inversion Hr; subst. assumption.
+  - destruct Hl as (Hlo & Hrest). destruct (gstep g o) as [g1|] eqn:E; [|discriminate].
+    apply (IH g1 g'); [eapply wfh_gstep; eassumption|assumption|assumption].
+Qed.
+
+(* in every state a legal history reaches, every live object satisfies the representation invariant (so all the
+   theorems above apply to every object a client can ever hold), and the next legal call returns an object unless it is
+   a concat whose total size does not fit in size_t *)
+Theorem reachable_wf : forall ops g, glegal g0 ops -> grun g0 ops = Some g ->
+  (forall k e, heap (g_st g) k = Some e -> wf (e_obj e)) /\
+  (forall o, legal g o -> gstep g o = None ->
+     exists f a b da db, o = OConcat f a b /\ get (g_st g) a = Some da /\ get (g_st g) b = Some db /\
+       size da <> 0 /\ size db <> 0 /\ M64 <= size da + size db).
+Proof.
+  intros ops g Hl Hr.
+  assert (HW : WFH (g_st g)).
+  { apply (grun_wfh ops g0 g); [intros k d E; discriminate|assumption|assumption]. }
+  split.
+  - intros k e Hk. apply (HW k). apply heap_objs. assumption.
+  - intros o Hlo Hn. apply legal_step_total; try assumption. eapply grun_inv; [apply GI_g0|eassumption|eassumption].
 Qed.
